@@ -1,26 +1,3 @@
 #!/bin/sh
-# setup_cmd: build the framework from files on disk only (offline).
-set -e
-cd "$(dirname "$0")"
-export GOFLAGS=-mod=mod GOPROXY=off
-unset GOSUMDB GOTOOLCHAIN || true
-mkdir -p .build/bin
-(cd harness && cp /repo/go.sum go.sum 2>/dev/null || true)
-(cd harness && go build -o ../.build/bin/extract ./extract)
-.build/bin/extract -repo /repo -out lean/ScionTime/Gen || true
-(cd lean && lake build ScionTime Driver)
-# all drivers named in props/*.json
-drivers=$(python3 - <<'PY'
-import json,glob
-s=set()
-for p in glob.glob('props/C*.json'):
-    for h in json.load(open(p))['harness']: s.add(h['driver'])
-print(' '.join(sorted(s)))
-PY
-)
-[ -n "$drivers" ] && (cd lean && lake build $drivers)
-# warm the Go build cache for every harness command
-for d in harness/cmd/*/; do
-  (cd harness && go build -tags verif -o /dev/null ./cmd/$(basename $d)) || true
-done
-echo setup done
+# MANIFEST.setup_cmd: build the framework from files on disk only (offline).
+cd "$(dirname "$0")" && exec ./check --setup
